@@ -23,13 +23,13 @@ Proof. intros. simpl. rewrite H. reflexivity. Qed.
 (* (e) yields exactly one value whatever e delivered *)
 Lemma paren_one_value : forall c vs k,
   ctl c = CRet vs -> stk c = KFirst :: k ->
-  step c = inl (mkCfg (CRet [first vs]) k (sto c) (trace c) (cline c)).
+  step c = inl (mkCfg (CRet [first vs]) k (sto c) (trace c) (cline c) (cot c)).
 Proof. intros c vs k H1 H2. unfold step. rewrite H1, H2. reflexivity. Qed.
 
 (* an expression that is not the last of a list contributes exactly one value *)
 Lemma list_middle_one_value : forall c vs acc e rest ρ lk k,
   ctl c = CRet vs -> stk c = KList acc (e :: rest) ρ lk :: k ->
-  step c = inl (mkCfg (CExp e ρ) (KList (acc ++ [first vs]) rest ρ lk :: k) (sto c) (trace c) (cline c)).
+  step c = inl (mkCfg (CExp e ρ) (KList (acc ++ [first vs]) rest ρ lk :: k) (sto c) (trace c) (cline c) (cot c)).
 Proof. intros. unfold step. rewrite H, H0. reflexivity. Qed.
 
 (* the last expression of a list contributes all its values *)
@@ -42,7 +42,7 @@ Proof. intros. unfold step. rewrite H, H0. reflexivity. Qed.
 
 (* frames that an error outcome passes through without stopping *)
 Definition passes_error (fr : frame) : bool :=
-  match fr with KPcall _ | KCoBottom _ => false | _ => true end.
+  match fr with KPcall _ | KCoBottom _ _ | KScope _ => false | _ => true end.
 
 (* the current line after unwinding through the frames k1 *)
 Fixpoint unwind_line (k1 : list frame) (ln : Z) : Z :=
@@ -52,53 +52,53 @@ Fixpoint unwind_line (k1 : list frame) (ln : Z) : Z :=
   | _ :: r => unwind_line r ln
   end.
 
-Lemma step_error_pop : forall fr v k σ tr ln,
+Lemma step_error_pop : forall fr v k σ tr ln cs,
   passes_error fr = true ->
-  step (mkCfg (COut (OError v)) (fr :: k) σ tr ln) =
-  inl (mkCfg (COut (OError v)) k σ tr (unwind_line [fr] ln)).
+  step (mkCfg (COut (OError v)) (fr :: k) σ tr ln cs) =
+  inl (mkCfg (COut (OError v)) k σ tr (unwind_line [fr] ln) cs).
 Proof. intros. destruct fr; try discriminate; reflexivity. Qed.
 
 (* nearest_barrier_only + error_value_intact + the `false, v` half of pcall_results:
    an error unwinds the frames up to and including the nearest barrier, and nothing
    else: the frames further out (k2), the store and the trace are untouched, and the
    barrier's continuation receives exactly `false` and the value raised. *)
-Theorem error_reaches_nearest_barrier : forall k1 h k2 v σ tr ln,
+Theorem error_reaches_nearest_barrier : forall k1 h k2 v σ tr ln cs,
   forallb passes_error k1 = true ->
-  steps (length k1 + 1) (mkCfg (COut (OError v)) (k1 ++ KPcall h :: k2) σ tr ln) =
-  inl (mkCfg (CRet [VBool false; v]) k2 σ tr (unwind_line k1 ln)).
+  steps (length k1 + 1) (mkCfg (COut (OError v)) (k1 ++ KPcall h :: k2) σ tr ln cs) =
+  inl (mkCfg (CRet [VBool false; v]) k2 σ tr (unwind_line k1 ln) cs).
 Proof.
-  induction k1 as [|fr k1 IH]; intros h k2 v σ tr ln H.
+  induction k1 as [|fr k1 IH]; intros h k2 v σ tr ln cs H.
   - reflexivity.
   - simpl in H. apply andb_prop in H. destruct H as [Hf Hr].
     change (length (fr :: k1) + 1)%nat with (S (length k1 + 1)).
     cbn [steps app].
-    rewrite (step_error_pop fr v (k1 ++ KPcall h :: k2) σ tr ln Hf).
-    rewrite (IH h k2 v σ tr _ Hr).
+    rewrite (step_error_pop fr v (k1 ++ KPcall h :: k2) σ tr ln cs Hf).
+    rewrite (IH h k2 v σ tr _ cs Hr).
     destruct fr; reflexivity.
 Qed.
 
 (* an uncaught error reaches the embedding caller with its value intact *)
-Theorem error_reaches_host : forall k1 v σ tr ln,
+Theorem error_reaches_host : forall k1 v σ tr ln cs,
   forallb passes_error k1 = true ->
-  steps (length k1 + 1) (mkCfg (COut (OError v)) k1 σ tr ln) = inr (FError v).
+  steps (length k1 + 1) (mkCfg (COut (OError v)) k1 σ tr ln cs) = inr (FError v).
 Proof.
-  induction k1 as [|fr k1 IH]; intros v σ tr ln H.
+  induction k1 as [|fr k1 IH]; intros v σ tr ln cs H.
   - reflexivity.
   - simpl in H. apply andb_prop in H. destruct H as [Hf Hr].
     change (length (fr :: k1) + 1)%nat with (S (length k1 + 1)).
     cbn [steps].
-    rewrite (step_error_pop fr v k1 σ tr ln Hf).
+    rewrite (step_error_pop fr v k1 σ tr ln cs Hf).
     apply IH. exact Hr.
 Qed.
 
 (* pcall_results, normal return: true followed by all results *)
-Theorem pcall_returns_true_and_all : forall vs h k σ tr ln,
-  step (mkCfg (CRet vs) (KPcall h :: k) σ tr ln) = inl (mkCfg (CRet (VBool true :: vs)) k σ tr ln).
+Theorem pcall_returns_true_and_all : forall vs h k σ tr ln cs,
+  step (mkCfg (CRet vs) (KPcall h :: k) σ tr ln cs) = inl (mkCfg (CRet (VBool true :: vs)) k σ tr ln cs).
 Proof. reflexivity. Qed.
 
 (* frames that neither stop an error nor hide the barrier's handler *)
 Definition plain_frame (fr : frame) : bool :=
-  match fr with KPcall _ | KCoBottom _ | KHandler => false | _ => true end.
+  match fr with KPcall _ | KCoBottom _ _ | KScope _ | KHandler => false | _ => true end.
 
 Lemma plain_passes : forall k, forallb plain_frame k = true -> forallb passes_error k = true.
 Proof.
@@ -116,43 +116,43 @@ Qed.
 
 (* a raise under a plain pcall: no handler runs — in particular not the handler of
    an xpcall further out (in k2) — and the barrier's continuation gets false, v. *)
-Theorem raise_under_pcall_no_outer_handler : forall k1 k2 v σ tr ln,
+Theorem raise_under_pcall_no_outer_handler : forall k1 k2 v σ tr ln cs,
   forallb plain_frame k1 = true ->
-  steps (S (length k1 + 1)) (mkCfg (CRaise v) (k1 ++ KPcall None :: k2) σ tr ln) =
-  inl (mkCfg (CRet [VBool false; v]) k2 σ tr (unwind_line k1 ln)).
+  steps (S (length k1 + 1)) (mkCfg (CRaise v) (k1 ++ KPcall None :: k2) σ tr ln cs) =
+  inl (mkCfg (CRet [VBool false; v]) k2 σ tr (unwind_line k1 ln) cs).
 Proof.
   intros. cbn [steps]. unfold step at 1. cbn [ctl stk].
   rewrite find_handler_nearest by assumption.
-  unfold go. cbn [sto trace cline].
+  unfold go. cbn [sto trace cline cot].
   apply error_reaches_nearest_barrier. apply plain_passes; assumption.
 Qed.
 
 (* xpcall: the handler is called once, at the point of the error (the whole stack is
    still in place under the KHandler frame) ... *)
-Theorem raise_calls_handler_at_raise_point : forall k1 h k2 v σ tr ln,
+Theorem raise_calls_handler_at_raise_point : forall k1 h k2 v σ tr ln cs,
   forallb plain_frame k1 = true ->
-  step (mkCfg (CRaise v) (k1 ++ KPcall (Some h) :: k2) σ tr ln) =
-  inl (mkCfg (CCall h [v] false) (KHandler :: k1 ++ KPcall (Some h) :: k2) σ tr ln).
+  step (mkCfg (CRaise v) (k1 ++ KPcall (Some h) :: k2) σ tr ln cs) =
+  inl (mkCfg (CCall h [v] false) (KHandler :: k1 ++ KPcall (Some h) :: k2) σ tr ln cs).
 Proof.
   intros. unfold step. cbn [ctl stk]. rewrite find_handler_nearest by assumption. reflexivity.
 Qed.
 
 (* ... and when it returns, its first result replaces the error value, which then goes
    to the barrier without the handler being consulted again. *)
-Theorem handler_result_replaces_error : forall k1 h k2 vs σ tr ln,
+Theorem handler_result_replaces_error : forall k1 h k2 vs σ tr ln cs,
   forallb passes_error k1 = true ->
-  steps (S (length k1 + 1)) (mkCfg (CRet vs) (KHandler :: k1 ++ KPcall (Some h) :: k2) σ tr ln) =
-  inl (mkCfg (CRet [VBool false; first vs]) k2 σ tr (unwind_line k1 ln)).
+  steps (S (length k1 + 1)) (mkCfg (CRet vs) (KHandler :: k1 ++ KPcall (Some h) :: k2) σ tr ln cs) =
+  inl (mkCfg (CRet [VBool false; first vs]) k2 σ tr (unwind_line k1 ln) cs).
 Proof.
-  intros. cbn [steps]. unfold step at 1. cbn [ctl stk step_ret]. unfold go. cbn [sto trace cline].
+  intros. cbn [steps]. unfold step at 1. cbn [ctl stk step_ret]. unfold go. cbn [sto trace cline cot].
   apply error_reaches_nearest_barrier. assumption.
 Qed.
 
 (* while a handler runs, a further error does not start another handler *)
-Theorem no_handler_inside_handler : forall k1 k v σ tr ln,
+Theorem no_handler_inside_handler : forall k1 k v σ tr ln cs,
   forallb plain_frame k1 = true ->
-  step (mkCfg (CRaise v) (k1 ++ KHandler :: k) σ tr ln) =
-  inl (mkCfg (COut (OError v)) (k1 ++ KHandler :: k) σ tr ln).
+  step (mkCfg (CRaise v) (k1 ++ KHandler :: k) σ tr ln cs) =
+  inl (mkCfg (COut (OError v)) (k1 ++ KHandler :: k) σ tr ln cs).
 Proof.
   intros. unfold step. cbn [ctl stk].
   assert (E : find_handler (k1 ++ KHandler :: k) = None).
@@ -162,22 +162,22 @@ Proof.
 Qed.
 
 (* error(v) with a non-string value, or level 0, raises v itself *)
-Theorem error_builtin_raises_value : forall v k σ tr ln,
+Theorem error_builtin_raises_value : forall v k σ tr ln cs,
   (forall s, v <> VStr s) ->
-  step (mkCfg (CCall (VBuiltin BError) [v] true) k σ tr ln) = inl (mkCfg (CRaise v) k σ tr ln).
+  step (mkCfg (CCall (VBuiltin BError) [v] true) k σ tr ln cs) = inl (mkCfg (CRaise v) k σ tr ln cs).
 Proof.
   intros. unfold step, step_call, call_builtin. cbn [ctl stk opt_int nth_error first].
   destruct v; try reflexivity. exfalso. apply (H s). reflexivity.
 Qed.
 
-Theorem error_builtin_level1_position : forall s k σ tr ln,
-  step (mkCfg (CCall (VBuiltin BError) [VStr s] true) k σ tr ln) =
-  inl (mkCfg (CRaise (VStr (position_at ln ++ s))) k σ tr ln).
+Theorem error_builtin_level1_position : forall s k σ tr ln cs,
+  step (mkCfg (CCall (VBuiltin BError) [VStr s] true) k σ tr ln cs) =
+  inl (mkCfg (CRaise (VStr (position_at ln ++ s))) k σ tr ln cs).
 Proof. reflexivity. Qed.
 
-Theorem error_builtin_level0_intact : forall s k σ tr ln,
-  step (mkCfg (CCall (VBuiltin BError) [VStr s; VInt 0] true) k σ tr ln) =
-  inl (mkCfg (CRaise (VStr s)) k σ tr ln).
+Theorem error_builtin_level0_intact : forall s k σ tr ln cs,
+  step (mkCfg (CCall (VBuiltin BError) [VStr s; VInt 0] true) k σ tr ln cs) =
+  inl (mkCfg (CRaise (VStr s)) k σ tr ln cs).
 Proof. reflexivity. Qed.
 
 (* the hypotheses are satisfiable: a call frame, a loop frame and a block frame above a barrier *)
@@ -193,10 +193,10 @@ Proof. reflexivity. Qed.
 Definition na : name := [97%N].
 Definition nb : name := [98%N].
 
-Theorem assign_rhs_first_swap : forall ca cb rest va' k σ tr ln ln0,
+Theorem assign_rhs_first_swap : forall ca cb rest va' k σ tr ln ln0 cs,
   let ρ := mkEnv ((nb, cb) :: (na, ca) :: rest) va' in
-  steps 8 (mkCfg (CStat ln (SAssign [EVar na; EVar nb] [EVar nb; EVar na]) ρ) k σ tr ln0) =
-  inl (mkCfg CDone k (cell_set (cell_set σ ca (cell_get σ cb)) cb (cell_get σ ca)) tr ln0).
+  steps 8 (mkCfg (CStat ln (SAssign [EVar na; EVar nb] [EVar nb; EVar na]) ρ) k σ tr ln0 cs) =
+  inl (mkCfg CDone k (cell_set (cell_set σ ca (cell_get σ cb)) cb (cell_get σ ca)) tr ln0 cs).
 Proof. intros. reflexivity. Qed.
 
 (* every execution of a `local` statement binds a cell that was not allocated before *)
@@ -222,12 +222,12 @@ Qed.
 (* fresh_cell_per_iteration, numeric for: when the loop goes on, the loop variable of
    the next iteration lives in the cell `ncell` of the current store — a cell no
    earlier iteration (nor anything else) can hold — and the counter moves past it. *)
-Theorem fresh_cell_per_iteration_fornum : forall x cur lim st b ρ ln k σ tr ln0,
+Theorem fresh_cell_per_iteration_fornum : forall x cur lim st b ρ ln k σ tr ln0 cs,
   ((if 0 <? st then cur + st <=? lim else lim <=? cur + st) && in64b (cur + st))%bool = true ->
-  step (mkCfg CDone (KForNumI x cur lim st b ρ ln :: k) σ tr ln0) =
+  step (mkCfg CDone (KForNumI x cur lim st b ρ ln :: k) σ tr ln0 cs) =
   inl (mkCfg (CBlock b (mkEnv ((x, ncell σ) :: vars ρ) (va ρ)) [])
              (KForNumI x (cur + st) lim st b ρ ln :: k)
-             (snd (cell_alloc σ (VInt (cur + st)))) tr ln0)
+             (snd (cell_alloc σ (VInt (cur + st)))) tr ln0 cs)
   /\ ncell (snd (cell_alloc σ (VInt (cur + st)))) = Pos.succ (ncell σ).
 Proof.
   intros. split; [|reflexivity].
@@ -237,11 +237,11 @@ Qed.
 
 (* the same for generic for: each iteration binds its variables with bind_names on the
    current store, i.e. in fresh cells *)
-Theorem fresh_cells_per_iteration_forin : forall xs f s b ρ ln k σ tr ln0 v vs,
+Theorem fresh_cells_per_iteration_forin : forall xs f s b ρ ln k σ tr ln0 cs v vs,
   v <> VNil ->
-  step (mkCfg (CRet (v :: vs)) (KForInC xs f s b ρ ln :: k) σ tr ln0) =
+  step (mkCfg (CRet (v :: vs)) (KForInC xs f s b ρ ln :: k) σ tr ln0 cs) =
   inl (let '(ρv, s', _) := bind_names xs (v :: vs) (vars ρ) σ in
-       mkCfg (CBlock b (mkEnv ρv (va ρ)) []) (KForIn xs f s v b ρ ln :: k) s' tr ln0).
+       mkCfg (CBlock b (mkEnv ρv (va ρ)) []) (KForIn xs f s v b ρ ln :: k) s' tr ln0 cs).
 Proof.
   intros. unfold step. cbn [ctl stk step_ret first sto].
   destruct v; try congruence; destruct (bind_names xs _ (vars ρ) σ) as [[? ?] ?]; reflexivity.
@@ -257,13 +257,19 @@ Proof.
 Qed.
 
 (* a `local` statement with values already evaluated binds fresh cells and continues the block *)
-Theorem local_binds_fresh : forall xs rest seen acc ρ k σ tr ln vs,
-  has_close xs = false ->
-  step (mkCfg (CRet vs) (KList acc [] ρ (LLocal xs rest seen) :: k) σ tr ln) =
-  inl (let '(ρv, s, _) := bind_names (map fst xs) (acc ++ vs) (vars ρ) σ in
-       mkCfg (CBlock rest (mkEnv ρv (va ρ)) seen) k s tr ln).
+Lemma close_val_none : forall xs vals, has_close xs = false -> close_val xs vals = None.
 Proof.
-  intros. unfold step. cbn [ctl stk step_ret finish_list sto]. rewrite H.
+  induction xs as [|[x a] xs IH]; intros vals H; simpl in *; auto.
+  destruct a; simpl in H; try discriminate; apply IH; auto.
+Qed.
+
+Theorem local_binds_fresh : forall xs rest seen acc ρ k σ tr ln cs vs,
+  has_close xs = false ->
+  step (mkCfg (CRet vs) (KList acc [] ρ (LLocal xs rest seen) :: k) σ tr ln cs) =
+  inl (let '(ρv, s, _) := bind_names (map fst xs) (acc ++ vs) (vars ρ) σ in
+       mkCfg (CBlock rest (mkEnv ρv (va ρ)) seen) k s tr ln cs).
+Proof.
+  intros. unfold step. cbn [ctl stk step_ret finish_list sto]. rewrite (close_val_none xs (acc ++ vs) H).
   destruct (bind_names (map fst xs) (acc ++ vs) (vars ρ) σ) as [[? ?] ?]. reflexivity.
 Qed.
 
@@ -305,6 +311,7 @@ Ltac fin :=
   repeat match goal with
   | |- res_mono _ (go _ _ _) => exact (mono_refl _)
   | |- res_mono _ (gol _ _ _ _) => exact (mono_refl _)
+  | |- res_mono _ (goc _ _ _ _ _) => exact (mono_refl _)
   | |- res_mono _ (rterr _ _ _) => exact (mono_refl _)
   | |- res_mono _ (inr _) => exact I
   | |- res_mono _ (inl _) => cbn [res_mono sto]
@@ -334,9 +341,9 @@ Proof.
   intros. unfold finish_list, tab_alloc. destruct lk.
   - brk; fin.
   - fin.
-  - destruct (has_close xs); [fin|].
-    pose proof (mono_bind_names (map fst xs) vals (vars ρ) (sto c)) as M.
-    destruct (bind_names (map fst xs) vals (vars ρ) (sto c)) as [[? ?] ?]. cbn [fst snd] in M. fin. exact M.
+  - pose proof (mono_bind_names (map fst xs) vals (vars ρ) (sto c)) as M.
+    destruct (bind_names (map fst xs) vals (vars ρ) (sto c)) as [[? ?] ?]. cbn [fst snd] in M.
+    brk; fin; exact M.
   - brk; fin.
   - brk; fin.
   - apply fornum_init_mono.
@@ -354,8 +361,10 @@ Lemma step_index_mono : forall c t kk k, res_mono (sto c) (step_index c t kk k).
 Proof. intros. unfold step_index. brk; fin. Qed.
 Lemma step_setindex_mono : forall c t kk v k, res_mono (sto c) (step_setindex c t kk v k).
 Proof. intros. unfold step_setindex. brk; fin. Qed.
+Lemma resume_co_mono : forall c id args k, res_mono (sto c) (resume_co c id args k).
+Proof. intros. unfold resume_co. brk; fin. Qed.
 Lemma call_builtin_mono : forall c b args k, res_mono (sto c) (call_builtin c b args k).
-Proof. intros. unfold call_builtin, tab_alloc. destruct b; brk; fin. Qed.
+Proof. intros. unfold call_builtin, tab_alloc. destruct b; brk; fin; try apply resume_co_mono. Qed.
 
 Lemma step_call_mono : forall c f args lua k, res_mono (sto c) (step_call c f args lua k).
 Proof.
@@ -373,7 +382,7 @@ Lemma step_block_mono : forall c ss ρ seen k, res_mono (sto c) (step_block c ss
 Proof.
   intros. unfold step_block, cell_alloc, clo_alloc. destruct ss as [|[ln s] rest]; [fin|].
   destruct s; try (fin; fail).
-  - exact (start_list_mono (mkCfg (ctl c) (stk c) (sto c) (trace c) ln) [] es ρ (LLocal xs rest seen) k).
+  - exact (start_list_mono (mkCfg (ctl c) (stk c) (sto c) (trace c) ln (cot c)) [] es ρ (LLocal xs rest seen) k).
   - brk; fin.
 Qed.
 
@@ -390,15 +399,18 @@ Proof.
   - apply start_list_mono.
 Qed.
 
+Lemma close_scope_mono : forall c v p k, res_mono (sto c) (close_scope c v p k).
+Proof. intros. unfold close_scope. brk; fin. Qed.
 Lemma step_done_mono : forall c fr k, res_mono (sto c) (step_done c fr k).
 Proof.
   intros. unfold step_done. destruct fr; try (fin; fail).
+  - apply close_scope_mono.
   - apply enter_fornum_i_mono.
   - apply enter_fornum_f_mono.
 Qed.
 
 Lemma step_out_mono : forall c o fr k, res_mono (sto c) (step_out c o fr k).
-Proof. intros. unfold step_out. destruct o; destruct fr; brk; fin. Qed.
+Proof. intros. unfold step_out. destruct fr; try apply close_scope_mono; destruct o; brk; fin. Qed.
 
 Theorem step_mono : forall c, res_mono (sto c) (step c).
 Proof.
@@ -432,8 +444,8 @@ Qed.
    iteration (ncell of the store at that point) differs from the cell bound at any
    later point of the run, e.g. by the next iteration: closures created in different
    iterations capture different variables. *)
-Corollary later_cells_differ : forall n σ v c ct k tr ln,
-  steps n (mkCfg ct k (snd (cell_alloc σ v)) tr ln) = inl c ->
+Corollary later_cells_differ : forall n σ v c ct k tr ln cs,
+  steps n (mkCfg ct k (snd (cell_alloc σ v)) tr ln cs) = inl c ->
   (ncell σ < ncell (sto c))%positive.
 Proof.
   intros. apply steps_mono in H. destruct H as [H _]. cbn [sto cell_alloc snd ncell] in H. lia.
